@@ -58,7 +58,7 @@ def check(prog, res, tier):
                             fails.append(definite(f'cells are filtered by `{t}`, not only by emptiness', e.node))
                 return fails
             if p.outcome != 'return':
-                return [definite(f'conversion raises {p.value!r}')]
+                return [definite(f'conversion raises {p.value!r}')] if p.outcome == 'raise' else []
             it = p.interp
             u = it.user
             w = ctor_of(it, 'IpmWriter')
@@ -127,7 +127,7 @@ def check(prog, res, tier):
             if p.outcome == 'loopback':
                 return []
             if p.outcome != 'return':
-                return [definite(f'conversion raises {p.value!r}')]
+                return [definite(f'conversion raises {p.value!r}')] if p.outcome == 'raise' else []
             it = p.interp
             u = it.user
             r = ctor_of(it, 'IpmReader')
@@ -224,7 +224,7 @@ def check(prog, res, tier):
 
     def chk3(p, mode):
         if p.outcome != 'return':
-            return [definite(f'_pytype_to_string raises {p.value!r} for a text cell')]
+            return [definite(f'_pytype_to_string raises {p.value!r} for a text cell')] if p.outcome == 'raise' else []
         it = p.interp
         pt = it.binds.get('pytype')
         v = it.user['v']
